@@ -67,6 +67,15 @@ def cases(ctx):
     out.append(pair_case("c14.leaf.index.equal_to", ii, ipre, "Index.equal_to(a)", "Index.equal_to(b)", "OBJ.filter([u, 0]).result"))
     out.append(pair_case("c14.leaf.key.equal_to", ss, spre, "Key.equal_to(a)", "Key.equal_to(b)", "OBJ.filter({'k': u, 'j': 0, '': 1}).result"))
     # ---- leaves: callable / class changed by enumeration, atom symbolic on both sides
+    pp = [("k1", "str"), ("k2", "str"), ("u", U)]
+    ppre = ["k1 in ('k', 'j') and k2 in ('k', 'j')", f"BU({L}, u)"]
+    kdoc = "OBJ.filter([{'k': u, 'z': 0}, {'j': 1}, {'k': 0, 'j': 1}, u]).result"
+    for nm in ["keys_contain_one_of", "keys_contain_any_of", "keys_contain_all_of", "keys_equal_to", "allowed_keys", "required_keys", "forbidden_keys"]:
+        out.append(pair_case(f"c14.leaf.varpos.dup.{nm}", pp, ppre, f"Value.{nm}(k1, k1)", f"Value.{nm}(k2)", kdoc))
+        out.append(pair_case(f"c14.leaf.varpos.order.{nm}", pp, ppre, f"Value.{nm}(k1, 'z')", f"Value.{nm}('z', k2)", kdoc))
+    out.append(pair_case("c14.leaf.varpos.dup.bool_int", [("u", U)], [f"BU({L}, u)"], "Value.keys_contain_one_of(1, True)", "Value.keys_contain_one_of(1)",
+                         "OBJ.filter([{1: u}, {True: 0, 2: 1}, u]).result"))
+    out.append(pair_case("c14.leaf.varpos.dup.classes", [("u", U)], [f"BU({L}, u)"], "Value.is_instance(int, int)", "Value.is_instance(int, bool)", leaf_beh))
     out.append(pair_case("c14.leaf.callable_changed", ii, ipre, "Value.less_than(a)", "Value.greater_than(b)", leaf_beh))
     out.append(pair_case("c14.leaf.alias", ii, ipre, "Value.lt(a)", "Value.less_than(b)", leaf_beh))
     out.append(pair_case("c14.leaf.preproc_changed", ii, ipre, "Value.length.equal_to(a)", "Value.equal_to(b)", "OBJ.filter([u, 'ab', [1], 2]).result"))
@@ -141,6 +150,23 @@ return ok
     out.append(pair_case("c14.path.cond_part", ii, ipre, "DataPath('x', ListValue(value=Value.gt(a)))", "DataPath('x', ListValue(value=Value.gt(b)))", path_beh))
     for mod in ["length", "dtype", "map_keys", "map_values"]:
         out.append(pair_case(f"c14.path.datum_mod.{mod}", ii, ipre, f"DataPath('y').{mod}()", "DataPath('y')" if mod != "dtype" else "DataPath('y').length()", path_beh))
+    # history: compare first (anything memoised by == must not go stale), then derive with a modifier, then compare again
+    for mod in ["first", "last", "single", "all", "length", "dtype", "map_keys"]:
+        body = f"""
+p = DataPath(MapValue(value=Value.is_instance(dict, list, str)))
+fresh = DataPath(MapValue(value=Value.is_instance(dict, list, str)))
+ok = note('base equals itself and a rebuilt copy', p == p and p == fresh and fresh == p)
+q = p.{mod}()
+rebuilt_q = DataPath(MapValue(value=Value.is_instance(dict, list, str))).{mod}()
+doc = {{'x': [a, 1], 'y': {{'k': u}}, 'z': u}}
+for x, y in ((q, p), (p, q), (q, fresh), (q, rebuilt_q), (rebuilt_q, q)):
+    if x == y:
+        ok = ok and same('equal paths select alike', outcome(lambda: x.get_data(doc)), outcome(lambda: y.get_data(doc)))
+ok = ok and note('a derived path equals a separately built copy of it', q == rebuilt_q and rebuilt_q == q)
+ok = ok and note('symmetric', (q == p) == (p == q))
+return ok
+"""
+        out.append(mk_case(f"c14.path.history.{mod}", [("a", "int"), ("u", U)], body, pre=[f"BU({L}, a, u)"], stubs=["sym_repr"]))
     for mod in ["first", "last", "all", "single"]:
         out.append(pair_case(f"c14.path.multi_mod.{mod}", ii, ipre, f"DataPath(MapValue()).{mod}()", "DataPath(MapValue())" if mod != "last" else "DataPath(MapValue()).first()", "OBJ.get_data({'x': u, 'y': a})"))
     # ---- rules
